@@ -718,12 +718,15 @@ class Layout:
         self.kept = []            # tokens actually written (optional semis may be dropped)
 
 
-def layout(tokens, ch, mode='free', crlf=None, comments=True, header=None):
-    """mode: 'free' | 'minimal' | 'lines'.  Returns Layout."""
+def layout(tokens, ch, mode='free', crlf=None, comments=True, header=None, allow_cr=False):
+    """mode: 'free' | 'minimal' | 'lines'.  Returns Layout.  allow_cr: occasionally use bare CR line ends
+    (picotool's lexer and REFLEX both take a lone CR as a line end)."""
     lay = Layout()
     if crlf is None:
         crlf = ch.chance(26)
     nl = b'\r\n' if crlf else b'\n'
+    if allow_cr and ch.chance(14):
+        nl = b'\r'
     lay.nl = nl
     toks = list(tokens)
     prev = None
